@@ -261,26 +261,64 @@ pub fn run(suite: &str, a: &[&str]) -> Option<String> {
     if suite != "p_total" {
         return None;
     }
+    // The case runs in a worker thread under a wall-clock watchdog: a library call that never returns (a loop inside
+    // `bounding_box()`, say) cannot be stopped by the step budget of a target, but it must still be reported with its input.
+    use std::sync::atomic::{AtomicUsize, Ordering};
+    static HUNG: AtomicUsize = AtomicUsize::new(0);
+    const WATCHDOG_S: u64 = 30;
+    if HUNG.load(Ordering::Relaxed) >= 2 {
+        return Some("FAIL nontermination: not run, two earlier cases of this batch never returned (their threads still spin)".into());
+    }
     let z = Zoo::parse(a);
-    let before = crate::allocs();
-    let r = catch_unwind(AssertUnwindSafe(|| exercise(&z)));
-    let after = crate::allocs();
-    Some(match r {
-        Ok(Ok(steps)) => {
-            if after != before {
-                format!("FAIL alloc: {} heap allocations during library calls", after - before)
-            } else {
-                format!("OK {}", steps)
+    // hand-over without any allocation on this thread while the worker measures: two flags and a pre-allocated slot
+    use std::sync::atomic::AtomicBool;
+    use std::sync::{Arc, Mutex};
+    let go = Arc::new(AtomicBool::new(false));
+    let done = Arc::new(AtomicBool::new(false));
+    let slot: Arc<Mutex<Option<String>>> = Arc::new(Mutex::new(None));
+    let (go2, done2, slot2) = (go.clone(), done.clone(), slot.clone());
+    let worker = std::thread::Builder::new().stack_size(32 << 20).spawn(move || {
+        while !go2.load(Ordering::Acquire) {
+            std::hint::spin_loop();
+        }
+        let before = crate::allocs();
+        let r = catch_unwind(AssertUnwindSafe(|| exercise(&z)));
+        let after = crate::allocs();
+        let line = match r {
+            Ok(Ok(steps)) => {
+                if after != before && HUNG.load(Ordering::Relaxed) == 0 {
+                    format!("FAIL alloc: {} heap allocations during library calls", after - before)
+                } else {
+                    format!("OK {}", steps)
+                }
             }
+            Ok(Err(e)) => format!("FAIL nontermination: {}", e),
+            Err(_) => {
+                // every overflow defect known so far is repaired: a panic is always an unlisted violation
+                let loc = LAST_PANIC.with(|p| p.borrow().clone());
+                let msg = LAST_PANIC_MSG.with(|p| p.borrow().clone());
+                format!("FAIL panic at {} ({})", loc, msg)
+            }
+        };
+        *slot2.lock().unwrap() = Some(line);
+        done2.store(true, Ordering::Release);
+    });
+    if worker.is_err() {
+        return Some("FAIL harness: cannot spawn the worker thread".into());
+    }
+    let t0 = std::time::Instant::now();
+    go.store(true, Ordering::Release);
+    let mut nap = 5u64;
+    while !done.load(Ordering::Acquire) {
+        if t0.elapsed().as_secs() >= WATCHDOG_S {
+            HUNG.fetch_add(1, Ordering::Relaxed);
+            return Some(format!("FAIL nontermination: no result within {} s (explicit step bound: 16 x bounding-box area + 65536 steps take < 2 s)", WATCHDOG_S));
         }
-        Ok(Err(e)) => format!("FAIL nontermination: {}", e),
-        Err(_) => {
-            // every overflow defect known so far is repaired: a panic is always an unlisted violation
-            let loc = LAST_PANIC.with(|p| p.borrow().clone());
-            let msg = LAST_PANIC_MSG.with(|p| p.borrow().clone());
-            format!("FAIL panic at {} ({})", loc, msg)
-        }
-    })
+        std::thread::sleep(std::time::Duration::from_micros(nap));
+        nap = (nap * 2).min(2000);
+    }
+    let line = slot.lock().unwrap().take();
+    Some(line.unwrap_or_else(|| "FAIL harness: worker finished without a result".into()))
 }
 
 // ---- correspondence suites for the f_ok predicates of coq/Model/Overflow.v ----------------------
